@@ -8,7 +8,7 @@
     10  model set_val (real)     fmt r o raw arr vd              -> codes, flags, read-back values
 *)
 From Coq Require Import ZArith List Bool.
-From FxpVerif Require Import Spec SpecArith NP Store Status Convert Arith Div Conv Bitwise Strings Dtype Shift Wire.
+From FxpVerif Require Import Spec SpecArith NP Store Status Convert Arith Div Conv Bitwise Strings Dtype Shift Sizes Wire.
 Import ListNotations.
 Open Scope Z_scope.
 
@@ -157,5 +157,13 @@ Definition dispatch (req : list Z) : list Z :=
   | 91 :: t => run (m <- dZ ;; f <- dfmt ;; cs <- dlist dZ ;; n <- dZ ;; dret (m, f, cs, n))
                 (fun '(m, f, cs, n) => eoutcome (fun p => efmt (fst p) ++ elist (fun z => [z]) (snd p))
                                                 (rshift_fmt_codes (if m =? 0 then ShExpand else ShKeep) f cs n)) t
+  (* 100: size inference: signed (0 F,1 T,2 None) then optional n_word n_frac n_int (flag, value), values *)
+  | 100 :: t => run (sg_ <- dZ ;; hw <- dbool ;; w <- dZ ;; hf <- dbool ;; fr <- dZ ;; hi <- dbool ;; ni <- dZ ;; hv <- dbool ;; vs <- dlist ddy ;;
+                     dret (sg_, hw, w, hf, fr, hi, ni, hv, vs))
+                (fun '(sg_, hw, w, hf, fr, hi, ni, hv, vs) =>
+                   eoutcome (fun '(s, nwd, nfr) => ebool s ++ [nwd; nfr])
+                     (init_size (match sg_ with 0 => Some false | 1 => Some true | _ => None end)
+                                (if hw : bool then Some w else None) (if hf : bool then Some fr else None) (if hi : bool then Some ni else None)
+                                64 (if hv : bool then Some vs else None))) t
   | _ => bad_request
   end.
